@@ -93,6 +93,21 @@ func (*c06) Gen(t core.RT, env *core.Env) any {
 	}
 	c.G = []int{2, 4, 8, 16}[rapid.IntRange(0, 3).Draw(t, "g")]
 	c.R = rapid.IntRange(1, 3).Draw(t, "r")
+	// bound the work of one case (the race detector slows the simulators down
+	// 10-20x and the machine may be busy): at most ~1.5 MB of searched input
+	maxHay := 0
+	for _, q := range c.Hays {
+		if n := len(q); n > maxHay {
+			maxHay = n
+		}
+	}
+	for c.G*c.R*len(c.Calls)*maxHay > 1500000 && (c.R > 1 || c.G > 2) {
+		if c.R > 1 {
+			c.R--
+		} else {
+			c.G /= 2
+		}
+	}
 	c.GC = rapid.IntRange(0, 5).Draw(t, "gc") == 0
 	c.Rot = rapid.IntRange(0, 15).Draw(t, "rot")
 	return c
